@@ -1266,3 +1266,69 @@ def frozen_dataclass_eq_hash_rule(ctx, rid, floor=2):
                '__eq__ is hand-written but __hash__ is the one dataclass generates from the raw fields: objects this __eq__ calls equal can hash differently', ci.mod.rel, ci.methods['__eq__'].lineno)
     if n == 0:
         raise AnalysisError(f'{rid}: no frozen dataclass with its own __eq__ found')
+
+
+# ---------------------------------------------------------------------------------------------------------------------
+# Equality through a lossy digest.  When __init__ keeps a constructor argument as it came (self._p = p / tuple(p) / a copy) *and* a
+# value computed from it, and equality reads only the computed one, two objects that differ in the argument can compare equal
+# while methods that use the verbatim field behave differently.
+LOSSLESS_DIGEST = {
+    ('cirq.devices.thermal_noise_model.ThermalNoiseModel', 'heat_rate_GHz'): 'rate_matrix_GHz holds the three rates entry by entry (decay / heating / dephasing positions): nothing is lost',
+    ('cirq.devices.thermal_noise_model.ThermalNoiseModel', 'cool_rate_GHz'): 'same matrix',
+    ('cirq.devices.thermal_noise_model.ThermalNoiseModel', 'dephase_rate_GHz'): 'same matrix',
+    ('cirq.experiments.t2_decay_experiment.T2DecayResult', 'x_basis_data'): 'the result *is* the expectation table; the raw counts are only kept for plotting',
+    ('cirq.experiments.t2_decay_experiment.T2DecayResult', 'y_basis_data'): 'same',
+}
+
+
+def _is_verbatim_copy(v, p):
+    while True:
+        if isinstance(v, ast.Name):
+            return v.id == p
+        if isinstance(v, ast.Call) and call_name(v).split('.')[-1] in ('tuple', 'list', 'dict', 'copy', 'deepcopy', 'array', 'asarray') and len(v.args) == 1:
+            a = v.args[0]
+            if isinstance(a, (ast.GeneratorExp, ast.ListComp)):
+                g = a.generators
+                return len(g) == 1 and not g[0].ifs and isinstance(g[0].iter, ast.Name) and g[0].iter.id == p
+            v = a
+            continue
+        if isinstance(v, ast.IfExp):
+            return _is_verbatim_copy(v.body, p) or _is_verbatim_copy(v.orelse, p)
+        return False
+
+
+def equality_reads_verbatim_rule(ctx, rid, floor=40):
+    from .. import fields as F
+    repo = ctx.repo
+    ctx.decided.append(f'{rid} where a constructor argument is kept both verbatim and as a value computed from it, equality reads the verbatim field (or a tabled lossless digest)')
+    ctx.rule(rid, 'no equality through a digest: for every class with _value_equality_values_ or a hand-written __eq__, a constructor parameter that __init__ stores verbatim '
+             '(self._p = p, tuple(p), a copy) is read by the equality through that verbatim field (directly or through a property) whenever the equality depends on the parameter at '
+             'all - reading only a value computed from it (the sorted union of the qubits of all groups, say) makes objects equal that answer differently', floor=floor, style='COH')
+    n = 0
+    for ci in sorted(repo.classes.values(), key=lambda c: c.qual):
+        if ci.mod.rel.endswith('_test.py') or '/testing/' in ci.mod.rel or '/contrib/' in ci.mod.rel:
+            continue
+        eq = ci.methods.get('_value_equality_values_') or ci.methods.get('__eq__')
+        init = ci.methods.get('__init__')
+        if eq is None or init is None:
+            continue
+        p2f = F.init_param_to_field(repo, ci)
+        rd = F.self_reads(repo, ci, eq, depth=2)
+        if '<self>' in rd:
+            continue
+        for p, fs in sorted(p2f.items()):
+            fs = {f for f in fs if '.' not in f}
+            verb = set()
+            for st in ast.walk(init):
+                if isinstance(st, (ast.Assign, ast.AnnAssign)) and st.value is not None:
+                    for t in (st.targets if isinstance(st, ast.Assign) else [st.target]):
+                        if isinstance(t, ast.Attribute) and isinstance(t.value, ast.Name) and t.value.id == 'self' and _is_verbatim_copy(st.value, p):
+                            verb.add(t.attr)
+            if not verb or not (fs & rd):
+                continue   # not stored verbatim, or equality does not depend on it at all (completeness is C11.i / C08.d2)
+            n += 1
+            ok = bool(verb & rd) or (ci.qual, p) in LOSSLESS_DIGEST
+            ctx.ob(rid, f'{ci.qual}:{p}', ok, '' if ok else
+                   f'`{p}` is kept verbatim in {sorted(verb)} but equality reads only {sorted(fs & rd)}, computed from it: objects that differ in `{p}` can compare equal', ci.mod.rel, eq.lineno)
+    if n == 0:
+        raise AnalysisError(f'{rid}: no instance')
